@@ -75,7 +75,7 @@ func runC10(c *an.Ctx) {
 					return
 				}
 				if owner := p.FieldOwner(fv); pooledOwners[owner] {
-					k := owner + "." + fv.Name()
+					k := owner + "." + an.RoleOf(fv)
 					W[k] = append(W[k], store{f, lhs.Pos()})
 				}
 			})
@@ -103,7 +103,7 @@ func runC10(c *an.Ctx) {
 				if fv == nil {
 					return
 				}
-				k := p.FieldOwner(fv) + "." + fv.Name()
+				k := p.FieldOwner(fv) + "." + an.RoleOf(fv)
 				out[k] = lhs.Pos()
 				if k == "Runtime.scope" && rhs != nil {
 					if u, ok := an.Unparen(rhs).(*ast.UnaryExpr); ok && u.Op == token.AND {
@@ -271,7 +271,7 @@ func stableFieldOnPath(p *an.Prog, info *types.Info, lhs ast.Expr) (owner, field
 				return "", ""
 			}
 			if p.StableField(info, x) {
-				return p.FieldOwner(fv), fv.Name()
+				return p.FieldOwner(fv), an.RoleOf(fv)
 			}
 			// x.X.f = …: if x.X is a struct *value* (not a pointer), the store modifies whatever holds that value
 			if _, isPtr := info.Types[x.X].Type.Underlying().(*types.Pointer); isPtr {
@@ -283,7 +283,7 @@ func stableFieldOnPath(p *an.Prog, info *types.Info, lhs ast.Expr) (owner, field
 			e = an.Unparen(x.X)
 			if sel, ok := e.(*ast.SelectorExpr); ok {
 				if fv := an.FieldOf(info, sel); fv != nil && p.StableField(info, sel) {
-					return p.FieldOwner(fv), fv.Name()
+					return p.FieldOwner(fv), an.RoleOf(fv)
 				}
 				return "", ""
 			}
@@ -341,8 +341,8 @@ func rangerPools(c *an.Ctx, rule string) {
 				continue
 			}
 			for i := 0; i < st.NumFields(); i++ {
-				if ex.State.Get("set:"+st.Field(i).Name()) == "" {
-					missing = append(missing, st.Field(i).Name())
+				if ex.State.Get("set:"+an.RoleOf(st.Field(i))) == "" {
+					missing = append(missing, an.RoleOf(st.Field(i)))
 				}
 			}
 		}
